@@ -318,6 +318,10 @@ def table_set_file(draw, min_particles=3, max_particles=8, max_lines=4, max_daug
         for x in owners + stable:
             if draw(st.integers(0, 4)) == 0:
                 aliases[x] = draw(st.sampled_from(targets))
+                # a name without a table may also be an alias of a particle of this file that *has* one:
+                # the alias itself still has no table
+                if x in stable and draw(st.sampled_from((False, True))):
+                    aliases[x] = draw(st.sampled_from(owners))
                 stmts.append({"k": "alias", "a": x, "p": aliases[x]})
     for i, m in enumerate(owners):
         lower = owners[i + 1:]
